@@ -208,6 +208,9 @@ func (p *Prog) Field(pkg, typ, field string) *types.Var {
 			return st.Field(i)
 		}
 	}
+	if f := renamedField(st, pkg, typ, field); f != nil {
+		return f
+	}
 	undecided("field %s.%s.%s not found", pkg, typ, field)
 	return nil
 }
